@@ -186,7 +186,8 @@ func convertSchema(s string, t *VirtualTable) error {
 		if i > 0 {
 			s += ", "
 		}
-		s += c.Name
+		// the parser strips quotes from names, so put them back
+		s += `"` + strings.ReplaceAll(c.Name, `"`, `""`) + `"`
 		if c.DefaultType != "" {
 			s += " " + c.DefaultType
 		}
